@@ -828,14 +828,37 @@ def family_reject():
         (['C08'], 'two inline sets, one of them unused', 'A', 'wire.NewSet(NewA), wire.NewSet(NewC)'),
         (['C08'], 'unused field provider', 'A', 'NewA, wire.Value(S{}), wire.FieldsOf(new(S), "Name")'),
         (['C09'], 'provider without results', 'A', 'NewA, NoResult'),
+        # the same source reached twice / sibling sets, through every way the front end merges sets
+        (['C05'], 'the same set twice in one call', 'B', 'SetA, SetA, NewB'),
+        (['C05'], 'a set and an alias variable of it', 'B', 'SetA, SetAlias, NewB'),
+        (['C05'], 'two sibling inline sets providing one type', 'B', 'wire.NewSet(NewA), wire.NewSet(NewA2), NewB'),
+        (['C05'], 'an inline set and a named set providing one type', 'B', 'wire.NewSet(NewA2), SetA, NewB'),
+        (['C05'], 'two inline sets nested in inline sets providing one type', 'B', 'wire.NewSet(wire.NewSet(NewA)), wire.NewSet(wire.NewSet(NewA2)), NewB'),
+        (['C05'], 'sibling inline sets with a provider and a value of one type', 'B', 'wire.NewSet(NewA), wire.NewSet(wire.Value(VA)), NewB'),
+        (['C05'], 'two named sets providing one type', 'B', 'SetA, SetA2, NewB'),
+        # cycles through every kind of edge, in sets of every shape, on and off the injector's result
+        (['C07'], 'cycle closed by a binding in a set that only re-exports another set, result off the cycle', 'Other', 'SetCycWrap'),
+        (['C07'], 'cycle closed by a binding two re-exporting sets away, result off the cycle', 'Other', 'SetCycWrap2'),
+        (['C07'], 'cycle closed by a binding in a re-exporting set, result on the cycle', '*Foo', 'SetCycWrap'),
+        (['C07'], 'cycle closed by a binding in an inline set', 'Other', 'wire.NewSet(SetCycBase, wire.Bind(new(Fooer), new(*Foo)))'),
+        (['C07'], 'cycle in a nested set, result off the cycle', 'A', 'SetCyc'),
+        (['C07'], 'cycle through a struct provider', 'SA', 'wire.Struct(new(SA), "*"), NewCycB2'),
+        (['C07'], 'cycle through a field provider', 'G', 'NewSF, wire.FieldsOf(new(SF), "G")'),
+        (['C07'], 'provider depending on its own result', 'Self', 'NewSelf'),
+        (['C07'], 'cycle of three providers behind a value', 'B', 'NewA, NewB, wire.NewSet(NewC3a, NewC3b, NewC3c)'),
     ]
     extra = 'type J interface{ Other() }\ntype jimpl struct{}\nfunc (jimpl) Other() {}\nfunc NewJ() J { return jimpl{} }\nfunc NewSpelled(lo uint8, hi byte) B { return B{} }\ntype Hooks struct {\n\tBefore func(req string) error\n\tAfter  func(resp string) error\n}\ntype CycA struct{}\ntype CycB struct{}\nfunc NewCycA(b CycB) CycA { return CycA{} }\nfunc NewCycB(a CycA) CycB { return CycB{} }\nfunc NoResult() {}\n'
+    extra += ('type Fooer interface{ Foo() }\ntype Foo struct{}\nfunc (*Foo) Foo() {}\nfunc NewFoo(f Fooer) *Foo { return &Foo{} }\ntype Other struct{}\nfunc NewOther() Other { return Other{} }\n'
+              'type SA struct{ B CycB2 }\ntype CycB2 struct{}\nfunc NewCycB2(a SA) CycB2 { return CycB2{} }\ntype G struct{}\ntype SF struct{ G G }\nfunc NewSF(g G) SF { return SF{} }\n'
+              'type Self struct{}\nfunc NewSelf(s Self) Self { return s }\ntype C3a struct{}\ntype C3b struct{}\ntype C3c struct{}\nfunc NewC3a(x C3c) C3a { return C3a{} }\nfunc NewC3b(x C3a) C3b { return C3b{} }\nfunc NewC3c(x C3b) C3c { return C3c{} }\n')
+    setvars = ('var SetA = wire.NewSet(NewA)\n\nvar SetAlias = SetA\n\nvar SetA2 = wire.NewSet(NewA2)\n\nvar SetCycBase = wire.NewSet(NewFoo, NewOther)\n\n'
+               'var SetCycWrap = wire.NewSet(SetCycBase, wire.Bind(new(Fooer), new(*Foo)))\n\nvar SetCycWrap2 = wire.NewSet(SetCycWrap)\n\nvar SetCyc = wire.NewSet(NewCycA, NewCycB, NewA)\n')
     for c in cases:
         props, lab, rty, items = c[0], c[1], c[2], c[3]
         args = c[4] if len(c) > 4 else ''
         files = {
             'providers.go': 'package {PKG}\n\n' + base + extra,
-            'wire.go': '//go:build wireinject\n// +build wireinject\n\npackage {PKG}\n\nimport "github.com/google/wire"\n\nvar SetA = wire.NewSet(NewA)\n\nfunc Inject(%s) %s {\n\tpanic(wire.Build(%s))\n}\n' % (args, rty, items),
+            'wire.go': '//go:build wireinject\n// +build wireinject\n\npackage {PKG}\n\nimport "github.com/google/wire"\n\n%s\nfunc Inject(%s) %s {\n\tpanic(wire.Build(%s))\n}\n' % (setvars, args, rty, items),
         }
         specs.append(RawSpec(files, 'must be rejected: ' + lab, expect='reject', reject_props=props, family='reject'))
     return specs
